@@ -205,3 +205,51 @@ theorem lcmDen_dvd_of_rel (A A' : QMat) (n : Nat) (hA : Rect n n A) (hA' : Rect 
   ring
 
 end NTV.Ord
+
+namespace NTV.Ord
+open NTV.RowOps (toM Rect ent)
+
+/-- C15 canonical storage: two rational bases of the same ℤ-module (B = U·A with U an integer matrix of
+unit determinant) are stored as the same order — `hnf_reduce` returns literally the same value -/
+theorem hnfReduce_canonical (A A' : QMat) (n : Nat) (hn : 0 < n) (hA : Rect n n A) (hA' : Rect n n A')
+    (U : Matrix (Fin n) (Fin n) ℤ) (hU : IsUnit U.det)
+    (hrel : toM n n A' = U.map (Int.castRingHom ℚ) * toM n n A) :
+    hnfReduce A' = hnfReduce A := by
+  -- the inverse change of basis is integral too
+  have hrel' : toM n n A = (U⁻¹).map (Int.castRingHom ℚ) * toM n n A' := by
+    rw [hrel, ← Matrix.mul_assoc, ← Matrix.map_mul, Matrix.nonsing_inv_mul _ hU]
+    simp
+  -- same lcm of denominators
+  have hL : lcmDen A' 1 = lcmDen A 1 :=
+    Int.dvd_antisymm (lcmDen_nonneg A') (lcmDen_nonneg A)
+      (lcmDen_dvd_of_rel A A' n hA hA' U hrel) (lcmDen_dvd_of_rel A' A n hA' hA U⁻¹ hrel')
+  -- the scaled integer matrices are related by U
+  have hS : NTV.Hnf.toM n n (scaled A' n) = U * NTV.Hnf.toM n n (scaled A n) := by
+    have hinj : Function.Injective (fun M : Matrix (Fin n) (Fin n) ℤ => M.map (Int.castRingHom ℚ)) :=
+      Matrix.map_injective (RingHom.injective_int (Int.castRingHom ℚ))
+    apply hinj
+    simp only
+    rw [Matrix.map_mul]
+    ext i j
+    have e1 := scaled_cast A' n hA' i j
+    simp only [Matrix.map_apply, Int.coe_castRingHom, Matrix.mul_apply]
+    rw [e1, hL, hrel, Matrix.mul_apply, Finset.mul_sum]
+    apply Finset.sum_congr rfl
+    intro k _
+    rw [scaled_cast A n hA k j]
+    simp only [Matrix.map_apply, Int.coe_castRingHom]
+    ring
+  have hS' : NTV.Hnf.toM n n (scaled A n) = U⁻¹ * NTV.Hnf.toM n n (scaled A' n) := by
+    rw [hS, ← Matrix.mul_assoc, Matrix.nonsing_inv_mul _ hU, Matrix.one_mul]
+  -- hence the same row lattice, hence the same Hermite normal form
+  have hcanon : NTV.Hnf.hnfNew (scaled A' n) = NTV.Hnf.hnfNew (scaled A n) := by
+    apply NTV.Hnf.hnf_canonical (scaled A' n) (scaled A n) n n n (scaled_rect A' n) (scaled_rect A n) hn hn hn
+    intro v
+    constructor
+    · rintro ⟨c, rfl⟩
+      exact ⟨c ᵥ* U, by rw [hS, Matrix.vecMul_vecMul]⟩
+    · rintro ⟨c, rfl⟩
+      exact ⟨c ᵥ* U⁻¹, by rw [hS', Matrix.vecMul_vecMul]⟩
+  rw [hnfReduce_unfold A' n hA', hnfReduce_unfold A n hA, hcanon, hL]
+
+end NTV.Ord
